@@ -445,9 +445,14 @@ def _visit_method(cls, name, opname):
 
 # ------------------------------------------------------------------------------ _get_block_vars
 
+FN_SETS = ('fn_scope.globals', 'fn_scope.nonlocals')
+
+
 def _sexp(e, fn):
     if isinstance(e, ast.Name):
         return 'XVar %s' % cs(e.id)
+    if isinstance(e, ast.Attribute) and ast.unparse(e) in FN_SETS:
+        return 'XFn %s' % cs(e.attr)
     if isinstance(e, ast.BinOp) and isinstance(e.op, (ast.BitOr, ast.BitAnd, ast.Sub)):
         k = {ast.BitOr: 'XUnion', ast.BitAnd: 'XInter', ast.Sub: 'XDiff'}[type(e.op)]
         return '%s (%s) (%s)' % (k, _sexp(e.left, fn), _sexp(e.right, fn))
@@ -474,7 +479,8 @@ def _block_vars(cls):
         if _is_call_to(v, 'tuple') and len(v.args) == 1 and isinstance(v.args[0], ast.BinOp):
             scope = (t, _sexp(v.args[0], fn))
         elif isinstance(v, ast.BinOp) and isinstance(v.op, (ast.BitOr, ast.BitAnd, ast.Sub)) and \
-                not any(isinstance(x, (ast.Attribute, ast.Call)) for x in ast.walk(v)):
+                not any(isinstance(x, ast.Call) or (isinstance(x, ast.Attribute) and ast.unparse(x) not in FN_SETS)
+                        for x in ast.walk(v)):
             inp = (t, _sexp(v, fn))
         elif _is_call_to(v, 'sorted'):
             if not (len(v.args) == 1 and isinstance(v.args[0], ast.Name) and len(v.keywords) == 1
@@ -508,6 +514,8 @@ def _block_vars(cls):
             roles['live_in'] = t
         elif ast.unparse(v) == 'anno.getanno(node, anno.Static.LIVE_VARS_OUT)':
             roles['live_out'] = t
+        elif t == 'fn_scope' and ast.unparse(v) != 'self.state[_Function].scope':
+            _fail(fn, s, 'fn_scope must be the scope of the enclosing function')
         # other assignments (defined_in, fn_scope, undefined) are C02's business
     if not (scope and inp and key and nouts and ret):
         _fail(fn, m, '_get_block_vars: scope tuple / input-only expression / sorted / nouts / return not all found')
